@@ -9,7 +9,12 @@
 set -u
 P="$1"; X="$2"; CHECKS="${3:-$1}"; PREFIX="${4:-/tmp/wtb_}"
 S=$PREFIX$P/_benign
-[ -f "$S/$X.diff" ] || { echo "no $S/$X.diff"; exit 2; }
+# without the author's scratch worktree the stored copy under /verif/benign/agents is used
+STORED=0
+if [ ! -f "$S/$X.diff" ]; then
+  [ -f "/verif/benign/agents/${P}_$X.diff" ] || { echo "no $S/$X.diff and no stored copy"; exit 2; }
+  S=$(mktemp -d); cp "/verif/benign/agents/${P}_$X.diff" "$S/$X.diff"; cp "/verif/benign/agents/${P}_notes.md" "$S/notes.md" 2>/dev/null; STORED=1
+fi
 export CARGO_NET_OFFLINE=true
 if [ ! -d /tmp/benrepo2 ]; then git -C /repo worktree add --detach /tmp/benrepo2 HEAD -q || exit 2; cp /repo/Cargo.lock /tmp/benrepo2/; fi
 # on the current HEAD of /repo when the patch applies there (so that a defect repaired since the change
@@ -17,7 +22,7 @@ if [ ! -d /tmp/benrepo2 ]; then git -C /repo worktree add --detach /tmp/benrepo2
 BASE=$(git -C /repo rev-parse HEAD)
 git -C /tmp/benrepo2 checkout -q -- . ; git -C /tmp/benrepo2 checkout -q --detach "$BASE"
 if ! git -C /tmp/benrepo2 apply --check "$S/$X.diff" 2>/dev/null; then
-  BASE=$(git -C $PREFIX$P rev-parse HEAD); git -C /tmp/benrepo2 checkout -q --detach "$BASE"
+  BASE=$(python3 -c "import json,sys; print(json.load(open(sys.argv[1]))['base_commit_of_repo'])" "/verif/benign/agents/${P}_$X.json" 2>/dev/null || git -C $PREFIX$P rev-parse HEAD); git -C /tmp/benrepo2 checkout -q --detach "$BASE"
 fi
 mkdir -p /tmp/benharness2 /tmp/benroot2
 rsync -a --delete --exclude target /verif/harness/ /tmp/benharness2/
@@ -36,7 +41,7 @@ for c in $CHECKS; do
 done
 git -C /tmp/benrepo2 checkout -q -- .
 D=/verif/benign/agents; mkdir -p $D
-cp "$S/$X.diff" $D/${P}_$X.diff; cp "$S/notes.md" $D/${P}_notes.md
+[ "$STORED" = 1 ] || { cp "$S/$X.diff" $D/${P}_$X.diff; cp "$S/notes.md" $D/${P}_notes.md; }
 python3 - "$P" "$X" "$suite" "[${results%,}]" "$D/${P}_$X.json" "$BASE" <<'PY'
 import sys, json
 P,X,suite,results,outp,base = sys.argv[1:]
